@@ -185,5 +185,6 @@ def assemble(src: str, files: dict | None = None, rom: str | None = None, define
                     p1.append(rec)
                 else:
                     p2.append(rec)
-            out["trace"] = {"nodes": [type(n).__name__ for n in nodes], "pass1": p1, "pass2": p2, "emit": em}
+            out["trace"] = {"nodes": [type(n).__name__ for n in nodes], "pass1": p1, "pass2": p2, "emit": em,
+                            "end_pc": program.resolver.pc}
     return out
